@@ -53,43 +53,52 @@ Print Assumptions C04_values_equal.
 (** the boolean forms of the hypotheses are sound *)
 Theorem C04_block_okb_sound : forall s B h, block_okb s B h = true -> block_ok s B h.
 Proof. exact block_okb_sound. Qed.
+Print Assumptions C04_block_okb_sound.
 Theorem C04_graph_okb_sound : forall s, graph_okb s = true -> graph_ok s.
 Proof. exact graph_okb_sound. Qed.
+Print Assumptions C04_graph_okb_sound.
 Theorem C04_pass_okb_sound : forall s, pass_okb s = true -> pass_ok s.
 Proof. exact pass_okb_sound. Qed.
 Print Assumptions C04_pass_okb_sound.
 
 (** Non-vacuity: states reached by [Engine.run]. *)
-Example C04_ex_pass_hyps : ex_state = Ok ex_pre /\ pass_ok ex_pre /\ status ex_pre = 0.
+Example C04_ex_pass_hyps : is_ok ex_state = true /\ pass_ok ex_pre /\ status ex_pre = 0.
 Proof. split; [vm_compute; reflexivity|]. split; [apply pass_okb_sound; vm_compute; reflexivity|vm_compute; reflexivity]. Qed.
+Print Assumptions C04_ex_pass_hyps.
 
 Example C04_ex_block_hyps :
-  ex_mid = Ok (ex_mid_s, [2; 3]%nat) /\ block_ok ex_mid_s [2; 3]%nat 1 /\ graph_ok ex_mid_s /\ quiet [] [2; 3]%nat.
+  is_ok ex_mid = true /\ block_ok ex_mid_s [2; 3]%nat 1 /\ graph_ok ex_mid_s /\ quiet [] [2; 3]%nat.
 Proof.
   split; [vm_compute; reflexivity|].
   split; [apply block_okb_sound; vm_compute; reflexivity|].
   split; [apply graph_okb_sound; vm_compute; reflexivity|]. intros n w _. reflexivity.
 Qed.
+Print Assumptions C04_ex_block_hyps.
 
 (** the two orders of that block really differ (the logs are not equal), yet are ≈ *)
 Example C04_ex_block_orders_differ :
   is_ok (run_block 0 [] ex_mid_s [2; 3]%nat) = true /\ is_ok (run_block 0 [] ex_mid_s [3; 2]%nat) = true /\
   log (blk_state (run_block 0 [] ex_mid_s [2; 3]%nat)) <> log (blk_state (run_block 0 [] ex_mid_s [3; 2]%nat)).
 Proof. split; [vm_compute; reflexivity|]. split; [vm_compute; reflexivity|]. vm_compute. discriminate. Qed.
+Print Assumptions C04_ex_block_orders_differ.
 
 Theorem C04_plan_par_okb_sound : forall p s, plan_par_okb p s = true -> plan_par_ok p s.
 Proof. exact plan_par_okb_sound. Qed.
+Print Assumptions C04_plan_par_okb_sound.
 
 Example C04_ex_plan_hyps : plan_par_ok ex_plan ex_pre /\ plan_par_ok [] ex_pre.
 Proof. split; apply plan_par_okb_sound; vm_compute; reflexivity. Qed.
+Print Assumptions C04_ex_plan_hyps.
 
 Theorem C04_sets_okb_sound : forall p s B, sets_okb p s B = true -> sets_ok p s B.
 Proof. exact sets_okb_sound. Qed.
+Print Assumptions C04_sets_okb_sound.
 
 Example C04_ex_sets_hyps :
   sets_ok ex_plan ex_mid_s [2; 3]%nat /\
   targets (nodeActs ex_plan ex_mid_s 2%nat) = [0%nat] /\ targets (nodeActs ex_plan ex_mid_s 3%nat) = [1%nat].
 Proof. split; [apply sets_okb_sound; vm_compute; reflexivity|]. split; vm_compute; reflexivity. Qed.
+Print Assumptions C04_ex_sets_hyps.
 
 (** * Footprints and lock sets (the race-freedom logic) *)
 
@@ -118,6 +127,7 @@ Theorem C04_footprints_reads_free : forall s t n,
   cutv t n = cutv s n /\ newval t n = newval s n /\ localEvs t n = localEvs s n /\
   forall y, localF t n y = localF s n y.
 Proof. exact fp_read_sound_free. Qed.
+Print Assumptions C04_footprints_reads_free.
 
 (** ... and the children scan under recomputeMu *)
 Theorem C04_footprints_reads_child : forall t t' c,
@@ -125,6 +135,7 @@ Theorem C04_footprints_reads_child : forall t t' c,
   (readsParents t c = true -> forall q, q ∈ parents (nd t c) -> changedAt (nd t' q) = changedAt (nd t q)) ->
   wantPush t' c = wantPush t c.
 Proof. exact fp_read_sound_child. Qed.
+Print Assumptions C04_footprints_reads_child.
 
 (** Lock sets, success paths: every pair of conflicting accesses of two different nodes of a block
     is covered by a common lock, except one shape of pair: a node's lock-free write of its own
@@ -160,9 +171,11 @@ Print Assumptions C04_lockset_refuted_candidate.
 Theorem C04_lockset_refuted_candidate_pending : forall s v, isVarKind (nkind (nd s v)) = true ->
   exists a b, a ∈ fp_set v /\ b ∈ footprint s v /\ conflict a b /\ ~ covered a b.
 Proof. exact lockset_refuted_pending. Qed.
+Print Assumptions C04_lockset_refuted_candidate_pending.
 
 Example C04_ex_lockset_candidate_reachable : pushlist ex_mid_s 2%nat = [5%nat].
 Proof. vm_compute; reflexivity. Qed.
+Print Assumptions C04_ex_lockset_candidate_reachable.
 
 (** * The bind case *)
 (* C04_full (NOT proved, and false as stated with ≈): "for every state reached by a history and
@@ -188,10 +201,12 @@ Theorem C04_bind_prefix_sequential : forall sched fuel p s al,
   | None => parLoopS sched fuel p s' al'
   end.
 Proof. exact bind_prefix_sequential. Qed.
+Print Assumptions C04_bind_prefix_sequential.
 
 Theorem C04_rest_has_no_lhs : forall sched s block n, fair sched ->
   n ∈ sched s (rest_part s block) -> isLhsNode s n = false /\ n ∈ block.
 Proof. exact rest_part_no_lhs. Qed.
+Print Assumptions C04_rest_has_no_lhs.
 
 Theorem C04_model_is_queue_order : forall p s, parStabilizeS queue_order p s = parStabilize p s.
 Proof. exact parStabilizeS_queue_order. Qed.
@@ -202,25 +217,27 @@ Print Assumptions C04_model_is_queue_order.
     [4; 2] (two lhs-change nodes, the first tearing the second down) ends in the library's index
     out of range [-1], the other order is fine *)
 Example C04_old_order_refuted :
-  w_state = Ok w_pre /\ fair queue_order /\ fair sw_sched /\
-  parStabilizeS_old queue_order [] w_pre = Crash IndexOutOfRange /\
-  parStabilizeS_old sw_sched [] w_pre = Ok (pass_state (parStabilizeS_old sw_sched [] w_pre), None).
+  is_ok w_state = true /\ fair queue_order /\ fair sw_sched /\
+  crashes_oob (parStabilizeS_old queue_order [] w_pre) = true /\
+  ok_none (parStabilizeS_old sw_sched [] w_pre) = true.
 Proof.
   split; [vm_compute; reflexivity|]. split; [exact queue_order_fair|].
   split; [exact sw_sched_fair|]. split; vm_compute; reflexivity.
 Qed.
+Print Assumptions C04_old_order_refuted.
 
 (** after the fix both orders succeed with the same observer values; the node ids differ *)
 Example C04_bind_ids_depend_on_schedule :
   let t1 := pass_state (parStabilizeS queue_order [] w_pre) in
   let t2 := pass_state (parStabilizeS rev_sched [] w_pre) in
   fair queue_order /\ fair rev_sched /\
-  parStabilizeS queue_order [] w_pre = Ok (t1, None) /\ parStabilizeS rev_sched [] w_pre = Ok (t2, None) /\
+  ok_none (parStabilizeS queue_order [] w_pre) = true /\ ok_none (parStabilizeS rev_sched [] w_pre) = true /\
   obsValues t1 = obsValues t2 /\ reg t1 <> reg t2.
 Proof.
   cbv zeta. split; [exact queue_order_fair|]. split; [exact rev_sched_fair|].
   split; [vm_compute; reflexivity|]. split; [vm_compute; reflexivity|]. split; [vm_compute; reflexivity|]. vm_compute. discriminate.
 Qed.
+Print Assumptions C04_bind_ids_depend_on_schedule.
 
 (** Faults are outside the theorems above, and the returned error cannot be schedule independent:
     ParallelStabilize keeps the FIRST error of a block (parallelBatch), so with two failing
@@ -229,3 +246,4 @@ Example C04_error_depends_on_order :
   blk_err (run_block 0 ex_fault_plan ex_mid_s [2; 3]%nat) = Some (EUser 2%nat) /\
   blk_err (run_block 0 ex_fault_plan ex_mid_s [3; 2]%nat) = Some (EUser 3%nat).
 Proof. split; vm_compute; reflexivity. Qed.
+Print Assumptions C04_error_depends_on_order.
